@@ -34,6 +34,7 @@ class Parser:
         self.the_environments = {}
         self.mathparser = mathparser.MathParser(self)
         self.unknowns = []
+        self.extracted = []
         self.latex = ''
 
         # used by expand_item():
@@ -523,8 +524,22 @@ class Parser:
 
     #   generate string from token sequence, with macro expansion
     #
+    #   - this expansion is only used for inspection of the text:
+    #     undo its side effects on extracted text parts (e.g., footnotes)
+    #     and on the rotating collections of placeholders
+    #
     def get_text_expanded(self, toks):
+        num_extracted = len(self.extracted)
+        settings = self.parms.parser_lang_settings.values()
+        repls = [lst for s in settings for lst in (s.math_repl_inline,
+                        s.math_repl_inline_vowel, s.math_repl_display,
+                        s.math_repl_display_vowel, s.lang_change_repl,
+                        s.lang_change_repl_vowel)]
+        saved = [lst.copy() for lst in repls]
         toks = self.expand_sequence(scanner.Buffer(toks.copy()))
+        del self.extracted[num_extracted:]
+        for lst, sav in zip(repls, saved):
+            lst[:] = sav
         return self.get_text_direct(toks)
 
     #   remove all blank text lines, which contain at least one ActionToken
